@@ -17,7 +17,8 @@ def plan(tier, seed):
     specs = [{"name": f"mix{i}", "index": i, "cases": per, "budget_s": 60 if tier == "quick" else 420}
              for i in range(n)]
     specs.append({"name": "grid", "index": 99, "grid": True, "cases": 0, "budget_s": 120 if tier == "quick" else 900})
-    return specs
+    from vlib.common import both_interpreter_modes
+    return both_interpreter_modes(specs)
 
 
 def gen_identifier(rng, size, zero_rich):
